@@ -334,6 +334,8 @@ type InstCmpXchg struct {
 	Volatile bool
 	// (optional) Sync scope; empty if not present.
 	SyncScope string
+	// (optional) Alignment; zero if not present.
+	Align Align
 	// (optional) Metadata.
 	Metadata
 }
@@ -368,7 +370,7 @@ func (inst *InstCmpXchg) Type() types.Type {
 
 // LLString returns the LLVM syntax representation of the instruction.
 func (inst *InstCmpXchg) LLString() string {
-	// 'cmpxchg' Weakopt Volatileopt Ptr=TypeValue ',' Cmp=TypeValue ',' New=TypeValue SyncScopeopt SuccessOrdering=AtomicOrdering FailureOrdering=AtomicOrdering Metadata=(',' MetadataAttachment)+?
+	// 'cmpxchg' Weakopt Volatileopt Ptr=TypeValue ',' Cmp=TypeValue ',' New=TypeValue SyncScopeopt SuccessOrdering=AtomicOrdering FailureOrdering=AtomicOrdering (',' Align)? Metadata=(',' MetadataAttachment)+?
 	buf := &strings.Builder{}
 	fmt.Fprintf(buf, "%s = ", inst.Ident())
 	buf.WriteString("cmpxchg")
@@ -384,6 +386,9 @@ func (inst *InstCmpXchg) LLString() string {
 	}
 	fmt.Fprintf(buf, " %s", inst.SuccessOrdering)
 	fmt.Fprintf(buf, " %s", inst.FailureOrdering)
+	if inst.Align != 0 {
+		fmt.Fprintf(buf, ", %s", inst.Align)
+	}
 	for _, md := range inst.Metadata {
 		fmt.Fprintf(buf, ", %s", md)
 	}
@@ -418,6 +423,8 @@ type InstAtomicRMW struct {
 	Volatile bool
 	// (optional) Sync scope; empty if not present.
 	SyncScope string
+	// (optional) Alignment; zero if not present.
+	Align Align
 	// (optional) Metadata.
 	Metadata
 }
@@ -452,7 +459,7 @@ func (inst *InstAtomicRMW) Type() types.Type {
 
 // LLString returns the LLVM syntax representation of the instruction.
 func (inst *InstAtomicRMW) LLString() string {
-	// 'atomicrmw' Volatileopt Op=AtomicOp Dst=TypeValue ',' X=TypeValue SyncScopeopt Ordering=AtomicOrdering Metadata=(',' MetadataAttachment)+?
+	// 'atomicrmw' Volatileopt Op=AtomicOp Dst=TypeValue ',' X=TypeValue SyncScopeopt Ordering=AtomicOrdering (',' Align)? Metadata=(',' MetadataAttachment)+?
 	buf := &strings.Builder{}
 	fmt.Fprintf(buf, "%s = ", inst.Ident())
 	buf.WriteString("atomicrmw")
@@ -464,6 +471,9 @@ func (inst *InstAtomicRMW) LLString() string {
 		fmt.Fprintf(buf, " syncscope(%s)", quote(inst.SyncScope))
 	}
 	fmt.Fprintf(buf, " %s", inst.Ordering)
+	if inst.Align != 0 {
+		fmt.Fprintf(buf, ", %s", inst.Align)
+	}
 	for _, md := range inst.Metadata {
 		fmt.Fprintf(buf, ", %s", md)
 	}
